@@ -204,6 +204,30 @@ Theorem c08_tail_path_agrees : forall P texts k l a evs from,
 Proof. exact tail_path_agrees. Qed.
 Print Assumptions c08_tail_path_agrees.
 
+(* the same for whatever the acceptance test counts, provided it is the sound rule; WHICH rule the source uses is read
+   from `let message_count = …` on every run (Gen/CompileConsts.v: gen_tail_count, obligation gen_tail_count_ok :
+   tail_count_sound gen_tail_count = true) *)
+Theorem c08_tail_path_rule_agrees : forall r P texts k l a evs from,
+  tail_count_sound r = true ->
+  incr l -> wf_refs l = true ->
+  tail_path_with r (p_limit P) k l a = Some (evs, from) ->
+  Some (compile_with P texts evs (filter is_ckpt l) from a) = compile P texts l a.
+Proof. exact tail_path_rule_agrees. Qed.
+Print Assumptions c08_tail_path_rule_agrees.
+
+(* ... and the hypothesis is needed: counting every message of the scanned tail (also those after the cut) accepts a
+   truncated tail — 40 messages, the newest 20 frames scanned, anchor = 5th message of the tail: 5 messages in the
+   bundle where the full replay gives 16 *)
+Theorem c08_tail_count_all_refuted :
+  valid_log count_all_log = true /\ wf_refs count_all_log = true
+  /\ tail_path_with CountAll 16 20 count_all_log 25 = Some (count_all_tail, 25)
+  /\ tail_path_with CountUpToCut 16 20 count_all_log 25 = None
+  /\ users (Some (compile_with code16 no_texts count_all_tail (filter is_ckpt count_all_log) 25 25)) = [21; 22; 23; 24; 25]
+  /\ users (compile code16 no_texts count_all_log 25) = map N.of_nat (seq 10 16)
+  /\ Some (compile_with code16 no_texts count_all_tail (filter is_ckpt count_all_log) 25 25) <> compile code16 no_texts count_all_log 25.
+Proof. exact tail_count_all_refuted. Qed.
+Print Assumptions c08_tail_count_all_refuted.
+
 Theorem c08_window_path_agrees : forall P texts l a from,
   incr l -> wf_refs l = true -> cut_point l a = Some from ->
   Some (compile_with P texts (mr_window (p_limit P) l from) (filter is_ckpt l) from a) = compile P texts l a.
